@@ -12,6 +12,7 @@ from rules import roles
 from engine.util import own_nodes, calls_with_nodes, where
 
 RULES = {
+    "R-14.11": "adopted from C18: the synchronous and asynchronous transports hand the same request MAC, keyring and flags to the reader (R-18.2) - a response is validated against the MAC of the query it answers on every transport",
     "R-14.1": "the ordered ctx.update() inputs of _digest equal the RFC 8945 4.3 composition under every valuation of (first, request MAC present); multi-message continuation starts with the length-prefixed prior MAC",
     "R-14.2": "validate digests the message with ARCOUNT-1 cut at the TSIG, performs error/time/key/algorithm checks before the MAC check, and every normal return is dominated by ctx.verify(rdata.mac); HMAC verify is a constant-time comparison of the (possibly truncated) digest",
     "R-14.3": "HMACTSig._hashes and mac_sizes agree (keys, hash function per algorithm name, digest or truncated size)",
@@ -375,6 +376,7 @@ def run(model, rep, tier):
                       "that same key (BadAlgorithm)", stmt="template-algorithm")
     from rules.c04 import check_parser_reads
     check_parser_reads(model, rep, "R-14.8")
+    rep.share(model, "C18", {"R-18.2"}, "R-14.11", "a TSIG response is bound to its request through request_mac=q.mac passed by udp/tcp/tls/https/quic to receive_*/from_wire; the async twin dropping it validates against an empty MAC")
     rep.meta["explanation"] = (
         "Ordered-effect projection of dns.tsig._digest: for each valuation of (first, request MAC present) the feasible CFG paths are walked and the arguments of ctx.update are "
         "flattened into typed tokens (struct formats expanded, concatenations split, locals substituted) and compared with the RFC 8945 4.3 table held in the checker - an independent "
